@@ -13,6 +13,7 @@ import (
 	"go/token"
 	"os"
 	"path/filepath"
+	"reflect"
 	"strings"
 )
 
@@ -41,6 +42,7 @@ func load(dirs ...string) (*src, error) {
 			s.files[n] = f
 		}
 	}
+	s.normalize()
 	return s, nil
 }
 
@@ -59,31 +61,11 @@ func (s *src) str(n ast.Node) string {
 }
 
 func isNilNode(n ast.Node) bool {
-	switch v := n.(type) {
-	case *ast.BlockStmt:
-		return v == nil
-	case *ast.FuncLit:
-		return v == nil
-	case *ast.FuncDecl:
-		return v == nil
-	case *ast.CallExpr:
-		return v == nil
-	case *ast.SelectStmt:
-		return v == nil
-	case *ast.IfStmt:
-		return v == nil
-	case *ast.RangeStmt:
-		return v == nil
-	case *ast.ForStmt:
-		return v == nil
-	case *ast.GoStmt:
-		return v == nil
-	case *ast.DeferStmt:
-		return v == nil
-	case *ast.CompositeLit:
-		return v == nil
+	if n == nil {
+		return true
 	}
-	return false
+	v := reflect.ValueOf(n)
+	return v.Kind() == reflect.Ptr && v.IsNil()
 }
 
 func (s *src) pos(n ast.Node) string {
